@@ -137,6 +137,8 @@ class Evolver:
             while inner["kind"] == "or":
                 inner = self.simple_type(depth + 1, allow_literal)
             items = [inner, {"kind": "base", "name": "null"}]
+            if self.draw(st.integers(0, 2)) == 0:
+                items.reverse()  # `null | X`: the metamodel does not prescribe where null stands
             return {"kind": "or", "items": items}
         if k == "literal":
             local: set = set()
@@ -205,6 +207,38 @@ class Evolver:
         self.new_structs.append(name)
         self.edits.append({"edit": "E1-new-structure", "name": name, "properties": [p["name"] for p in s["properties"]],
                            "extends": [x["name"] for x in s.get("extends", [])], "mixins": [x["name"] for x in s.get("mixins", [])]})
+
+    def e_override_chain(self) -> None:
+        """Mid extends B and re-declares one inherited property (as CreateFile does with `kind`); Leaf extends Mid."""
+        m = Model(self.doc)
+        cands = [s for s in self.new_structs + self.base_structs if m.flat_props(s)]
+        if not cands:
+            return
+        b = self.pick(cands)
+        props = m.flat_props(b)
+        q = self.pick(props)
+        t = q["type"]
+        if t == {"kind": "base", "name": "string"}:
+            nt: Dict[str, Any] = {"kind": "stringLiteral", "value": "vf" + self.pick(WORDS_U)}
+        elif t == {"kind": "base", "name": "integer"}:
+            nt = {"kind": "base", "name": "uinteger"}
+        elif t.get("kind") == "stringLiteral":
+            nt = {"kind": "stringLiteral", "value": t["value"] + "Vf"}
+        else:
+            nt = {"kind": "base", "name": self.pick(["string", "boolean", "uinteger"])}
+        over = {"name": q["name"], "type": nt}
+        if self.draw(st.booleans()) and nt["kind"] != "stringLiteral":
+            over["optional"] = True
+        mid = self.fresh_type_name()
+        leaf = self.fresh_type_name()
+        local = {p["name"] for p in props}
+        self.doc["structures"].append({"name": mid, "properties": [over] + [self.new_property(local) for _ in range(self.draw(st.integers(0, 1)))],
+                                       "extends": [{"kind": "reference", "name": b}]})
+        self.doc["structures"].append({"name": leaf, "properties": [self.new_property(local) for _ in range(self.draw(st.integers(0, 2)))],
+                                       "extends": [{"kind": "reference", "name": mid}]})
+        self.keep_inhabitable(self.doc["structures"][-1]["properties"] + self.doc["structures"][-2]["properties"][1:])
+        self.new_structs += [mid, leaf]
+        self.edits.append({"edit": "E8-override-chain", "base": b, "property": q["name"], "type": nt, "mid": mid, "leaf": leaf})
 
     def e_new_property(self) -> None:
         cands = [s for s in self.doc["structures"] if not s["name"].startswith("_") and s["name"] != "LSPObject"]
@@ -291,6 +325,8 @@ class Evolver:
                 msg["result"] = {"kind": "array", "element": self._struct_ref()}
             else:
                 msg["result"] = {"kind": "or", "items": [self._struct_ref(), {"kind": "base", "name": "null"}]}
+                if self.draw(st.integers(0, 2)) == 0:
+                    msg["result"]["items"].reverse()
             if self.draw(st.integers(0, 3)) == 0:
                 msg["partialResult"] = {"kind": "array", "element": self._struct_ref()}
             self.doc["requests"].append(msg)
@@ -342,7 +378,7 @@ class Evolver:
         table = [
             ("E1", self.e_new_structure), ("E1", self.e_new_structure), ("E2", self.e_new_property), ("E2", self.e_new_property),
             ("E3", self.e_new_enum), ("E4", self.e_new_enum_value), ("E5", self.e_new_message), ("E5", self.e_new_message),
-            ("E6", self.e_mark), ("E7", self.e_remove_optional),
+            ("E6", self.e_mark), ("E7", self.e_remove_optional), ("E8", self.e_override_chain),
         ]
         if self.allow is not None:
             table = [t for t in table if t[0] in self.allow]
